@@ -21,7 +21,7 @@ Extraction "Model.ml"
   (* label *)
   wf_label label_eqb label_compare label_print label_from_str
   (* graph *)
-  op_empty op_add op_bind op_put op_data op_kids op_kid op_keys op_len op_next_id op_clone cap_of
+  tag op_empty op_add op_bind op_put op_data op_kids op_kid op_keys op_len op_next_id op_clone cap_of
   (* printers, exports *)
   op_debug op_vprint op_inspect op_to_xml op_to_dot debug_doc vprint_doc inspect_doc export_doc
   (* slice, merge *)
